@@ -446,7 +446,15 @@ func judgeDashKind(c *hc.Ctx, tag string, p *canvas.Path, off float64, d []float
 				}
 			}
 			c.Count(fmt.Sprintf("%s:attributed-to-SplitAt/Length error %s of longest segment", tag, bucket(e/ksub.f.maxSeg)))
+			un, ecc := unevenness(ksub.f)
+			c.Count(fmt.Sprintf("accuracy-cause: speed min/max %s, arc rx/ry %s", bucket10(un), bucketEcc(ecc)))
 			kind = "inverse-arc-length-accuracy"
+			if un >= 0.3 {
+				// the recorded defect needs a segment with very uneven parametric speed (sharp turn,
+				// near-cusp, eccentric arc); on evenly parametrised curves the approximation is
+				// accurate in the unchanged tree, so this is something else
+				kind = "inverse-arc-length-accuracy:even-speed-segment"
+			}
 			desc = fmt.Sprintf("[segment kinds %s: Path.SplitAt/Length are off by %.3g = %.2g%% of the longest segment on this subpath] %s", cls, e, 100*e/ksub.f.maxSeg, desc)
 		}
 	}
@@ -601,6 +609,19 @@ func judgeDash1(c *hc.Ctx, tag string, p *canvas.Path, off float64, d []float64,
 				got = append(got, [2]float64{o.a, math.Min(o.b, f.L)})
 			}
 		}
+		// VERDICT IN LEAN for straight subpaths: the raw observation (arc-length intervals of the
+		// returned pieces) is sent to the Lean driver, which decides it against the pattern
+		// semantics (CanvasModel/C05.lean verdictBad; C05.phase_drawn_iff, sampleOk_mono)
+		if f.straight && P > 0 && len(got) <= 150 && minAll(d) >= 0 {
+			var sb strings.Builder
+			sb.WriteString(patLine("VERDICT", off, d))
+			fmt.Fprintf(&sb, " %s %d", hc.H(f.L), len(got))
+			for _, iv := range got {
+				fmt.Fprintf(&sb, " %s %s", hc.H(iv[0]), hc.H(iv[1]))
+			}
+			c.Case(sb.String(), "!", "lean-verdict:"+tag)
+			c.Count(tag + ":verdict decided in Lean")
+		}
 		nb := 2*len(want) + 2
 		// Relative to the size of the subpath (the property must hold whatever the unit of the
 		// coordinates): 1% of the longest segment on curves (the accuracy of the Chebyshev inverse
@@ -722,6 +743,59 @@ func hasReversal(f *fineSub) bool {
 		}
 	}
 	return false
+}
+
+// unevenness: over the curved segments of the subpath, the smallest ratio of slowest to fastest
+// parametric speed (from the chords of the dense flattening, which is uniform in the parameter), and
+// the largest axis ratio of an elliptical arc.
+func unevenness(f *fineSub) (speedRatio, ecc float64) {
+	speedRatio, ecc = 1, 1
+	for si, g := range f.segs {
+		if g.Kind == 'L' || g.Kind == 'Z' {
+			continue
+		}
+		lo, hi := math.Inf(1), 0.0
+		for k := 0; k < f.n; k++ {
+			cl := f.cum[si*f.n+k+1] - f.cum[si*f.n+k]
+			lo, hi = math.Min(lo, cl), math.Max(hi, cl)
+		}
+		if hi > 0 && lo/hi < speedRatio {
+			speedRatio = lo / hi
+		}
+		if g.Kind == 'A' {
+			_, _, _, rx, ry := hc.ArcCenter(g)
+			if r := math.Max(rx, ry) / math.Min(rx, ry); r > ecc {
+				ecc = r
+			}
+		}
+	}
+	return
+}
+
+func bucket10(x float64) string {
+	for _, b := range []float64{0.01, 0.02, 0.05, 0.1, 0.2, 0.3, 0.5} {
+		if x < b {
+			return fmt.Sprintf("<%.2f", b)
+		}
+	}
+	return ">=0.5"
+}
+
+func bucketEcc(x float64) string {
+	for _, b := range []float64{1.5, 2, 3, 5, 10} {
+		if x < b {
+			return fmt.Sprintf("<%g", b)
+		}
+	}
+	return ">=10"
+}
+
+func minAll(d []float64) float64 {
+	m := math.Inf(1)
+	for _, x := range d {
+		m = math.Min(m, x)
+	}
+	return m
 }
 
 func minPositive(d []float64) float64 {
